@@ -57,10 +57,14 @@ def run(ctx):
   rule_align(ctx)
   rule_sanitise(ctx)
   rule_u2f(ctx)
+  # "no nonce check marks a signature weak without a verified key": the positive entry recorded for a signature must have been given its result in
+  # that signature's own iteration (under `i in issuer_dlogs`), not inherited from an earlier signature through a reused entry
+  from . import c16
+  c16.rule_isolated(ctx, T.bodies(ctx.repo), "R-C02-SANITISE", lambda w_: w_.startswith("ecdsa_sig_checks:"))
   ctx.expect("R-C02-RELEASE", 5, "three BatchDL stores + two relation strings")
   ctx.expect("R-C02-CODEC", 2, "writer index and reader pair")
   ctx.expect("R-C02-ALIGN", 4, "four Check bodies")
-  ctx.expect("R-C02-SANITISE", 4, "issuer lookup + sinks")
+  ctx.expect("R-C02-SANITISE", 7, "issuer lookup + sinks + verdict isolation of the three signature checks")
   ctx.expect("R-C02-U2F", 1, "cross-check")
 
 
